@@ -24,7 +24,7 @@ def judge(path):
                 for i, n in enumerate(ev[5:25]):
                     c["gen." + GEN[i]] = c.get("gen." + GEN[i], 0) + n
             elif ev[0] == "T":
-                cls, mask, hx = ev[1], ev[2] & 0x3ff, ev[3]
+                cls, mask, hx = ev[1], ev[2] & 0xfffff, ev[3]
                 if ev[2] & (1 << 31):
                     c["rejected_without_error_flag(C14)"] = c.get("rejected_without_error_flag(C14)", 0) + 1
                 tok = bytes.fromhex(hx)
@@ -97,7 +97,7 @@ def fuzz(rep, rd, seed, runs, jobs, target="d_c06", dict_words=(), max_len=65536
                 key = "hang:libfuzzer"
             rep.violation("fuzz:" + key, "libFuzzer run died: " + key, wit)
     rep.count("libfuzzer_executions", execs)
-    rep.evaluations += execs * 10   # every fuzz input is shown to the 10 checkers
+    rep.evaluations += execs * 20   # every fuzz input is shown to the 20 checkers
     rep.count("libfuzzer_corpus_files", len(os.listdir(corpus)))
     return corpus
 
@@ -109,8 +109,8 @@ DICT = ["none", "HS256", "HS384", "HS512", "RS256", "ES256", "EdDSA", "PS256", "
 def run(tier, seed, replay):
     rep = vf.Report("C06", tier, seed)
     rep.rule = ("grammar-derived near-valid tokens (20 generator classes: valid, malformed JSON, character faults, padding, huge/deep "
-                "segments, random bytes, NUL inside, segment-count games, ...) and coverage-guided libFuzzer inputs, each shown to 10 "
-                "checkers (2 providers x {no key, HS256, RS256, ES256, EdDSA}) with a reading callback; evaluations = verify calls; "
+                "segments, random bytes, NUL inside, segment-count games, ...) and coverage-guided libFuzzer inputs, each shown to 20 "
+                "checkers (2 providers x {no key, HS256, RS256, PS256, ES256, ES384, ES512, ES256K, Ed25519, Ed448}) with a reading callback; evaluations = verify calls; "
                 "distinct = distinct (generator class, classifier reason, accepted?) tuples among logged tokens")
     rep.assumptions = ["ASan/UBSan/LSan see only libjwt's own code (jansson/OpenSSL/GnuTLS are uninstrumented)",
                        "'definitely malformed' is judged by a conservative classifier (monitors/token_class.py); NUL-prefix and over-deep documents are ambiguous"]
@@ -134,6 +134,16 @@ def run(tier, seed, replay):
     outs2, crashes2 = vf.run_shards(b, ["--mode", "corpus", "--arg1", corpus, "--seed", seed], vf.NCPU, rd, tag="c", timeout=3000)
     rep.crash_violations(crashes2, prefix="corpus:")
     merge(rep, vf.pmap(judge, [(p,) for p in outs2]))
+    if thorough:
+        # uninitialised reads are invisible to ASan/UBSan: a slice of the generator under valgrind memcheck on the plain build
+        pb = vf.driver("d_c06", "plain")
+        vouts, vcr = vf.run_shards("valgrind", ["-q", "--error-exitcode=97", "--num-callers=30", pb, "--mode", "gen", "--n", 4800, "--seed", seed + 7],
+                                   vf.NCPU, rd, tag="vg", timeout=3400, max_restarts=3)
+        rep.crash_violations(vcr, prefix="memcheck:")
+        before = rep.counters.get("tokens", 0)
+        merge(rep, vf.pmap(judge, [(p,) for p in vouts]))
+        rep.count("tokens_under_memcheck", rep.counters.get("tokens", 0) - before)
+        vf.need(rep, rep.counters.get("tokens_under_memcheck", 0) > 1000, "memcheck stage did not run")
     c = rep.counters
     vf.need(rep, c.get("accepted.ok", 0) > 50, "too few well-formed tokens accepted (positive control)")
     vf.need(rep, c.get("callback_invocations", 0) > 100, "reading callback hardly ran")
